@@ -1035,3 +1035,79 @@ def widen(d):
       walk(c)
   walk(d)
   return d
+
+
+# -- boundary values of nested specs, crossed between the specs of a pair (round 3) -------
+
+def _elem(spec, i=0):
+  if isinstance(spec, T.List):
+    return spec.element.value
+  return spec.elements[i if spec.fixed_length else 0].value
+
+
+def cross_values(rng, specs, limit=16, depth=0):
+  """Containers built around the parameter-derived values of the *nested*
+  specs of all `specs` of the same container class: every element-level
+  boundary of one spec is offered inside a container to the others (own_values
+  offers mostly elements that the spec's own element spec accepts)."""
+  if depth > 3:
+    return []
+  out = []
+  lists = [s for s in specs if isinstance(s, T.List)]
+  vtups = [s for s in specs if isinstance(s, T.Tuple) and not s.fixed_length]
+  ftups = [s for s in specs if isinstance(s, T.Tuple) and s.fixed_length]
+  dicts = [s for s in specs if isinstance(s, T.Dict) and s.schema is not None]
+  prims = [s for s in specs if not isinstance(s, (T.List, T.Tuple, T.Dict, T.Union))]
+  if depth > 0:
+    for s in prims:
+      out += own_values(rng, s, 3)
+  for group, mk in ((lists, list), (vtups, tuple)):
+    if not group:
+      continue
+    inner = cross_values(rng, [_elem(s) for s in group], limit, depth + 1)
+    n = max([1] + [s.min_size or 0 for s in group])
+    n = min(n, min([6] + [s.max_size for s in group if s.max_size]))
+    for e in inner:
+      out.append(mk(detached(e) for _ in range(max(1, n))))
+  if ftups:
+    width = len(ftups[0].elements)
+    same = [s for s in ftups if len(s.elements) == width]
+    fill = []
+    for i in range(width):
+      ok, _ = _pick_ok(rng, _elem(same[0], i), 2, 1)
+      fill.append(ok[0] if ok else None)
+    for i in range(width):
+      for e in cross_values(rng, [_elem(s, i) for s in same], limit, depth + 1):
+        out.append(tuple(detached(e) if j == i else detached(fill[j]) for j in range(width)))
+  if dicts:
+    first = dicts[0]
+    fill = {}
+    for key, f in first.schema.items():
+      if key.is_const:
+        ok, _ = _pick_ok(rng, f.value, 2, 1)
+        if ok:
+          fill[str(key)] = ok[0]
+    for key, f in first.schema.items():
+      if not key.is_const:
+        continue
+      peers = [f.value]
+      for s in dicts[1:]:
+        g = s.schema.get_field(str(key))
+        if g is not None:
+          peers.append(g.value)
+      if len(peers) < 2:
+        continue
+      for e in cross_values(rng, peers, limit, depth + 1):
+        v = detached(fill)
+        v[str(key)] = detached(e)
+        out.append(v)
+  if depth == 0:
+    seen, uniq = set(), []
+    for v in out:
+      k = (type(v).__name__, repr(v))
+      if k not in seen:
+        seen.add(k)
+        uniq.append(v)
+    rng.shuffle(uniq)
+    return uniq[:limit]
+  return out
